@@ -35,7 +35,7 @@ ASSUMPTIONS = [
 
 DELIMS = [(" ", r"\s+"), ("\t", r"\s+"), ("  \t ", r"\s+"), (",", ","), ("\t", "\t"),
           (";", ";")]
-LABEL_CHARS = list("abcXYZ019_-:()/#,;.'\"!?*") + ["é", "ß", "日", "本", "♯", "𝄞", "λ", "ё",
+LABEL_CHARS = list("abcXYZ019_-:()/#,;.'\"!?*%") + ["é", "ß", "日", "本", "♯", "𝄞", "λ", "ё",
                                                     " ", "  ", "\t",
                                                     # separators that str.splitlines()
                                                     # breaks at but file iteration
